@@ -161,6 +161,11 @@ func ZZ_C19_canaryCmds() {
 		at := metav1.NewTime(nondet.Base().Add(-time.Hour))
 		c.ERS[1].Status.Conditions = append(c.ERS[1].Status.Conditions, v1alpha1.ExtendedDaemonSetReplicaSetCondition{Type: v1alpha1.ConditionTypeCanaryFailed, Status: corev1.ConditionFalse, LastTransitionTime: at, LastUpdateTime: at})
 	}
+	// an earlier canary was validated: the annotation still names the replica set promoted then (the
+	// controller does not remove it); it says nothing about the current canary
+	if (state == "canary" || state == "user-paused") && nondet.Bool("validAnnotationOfAnEarlierCanary") {
+		zzStored(c).Annotations[v1alpha1.ExtendedDaemonSetCanaryValidAnnotationKey] = "foo-a"
+	}
 	before := zzStored(c).DeepCopy()
 	var rsBefore *v1alpha1.ExtendedDaemonSetReplicaSet
 	if len(c.ERS) > 1 {
